@@ -34,7 +34,7 @@ func c21Scenarios(quick bool) []c21Scenario {
 			{"have-local-offer", "C", "AddTrack"}, {"have-local-offer", "G", "CreateDataChannel"}, {"have-local-offer", "CG", "none"},
 			{"have-local-offer", "CGG", "none"},
 			{"stable", "C", "none"}, {"stable", "G", "none"}, {"stable", "CG", "none"}, {"stable", "C", "ICE-disconnected"},
-			{"stable", "G", "ICE-failed"}, {"stable", "C", "CreateDataChannel"},
+			{"stable", "G", "ICE-failed"}, {"stable", "C", "CreateDataChannel"}, {"stable", "CGG", "none"},
 		}
 	}
 	var out []c21Scenario
